@@ -25,7 +25,7 @@ class _Abort(BaseException):
 
 
 class Sched:
-    def __init__(self, choose, rng, max_steps=20000, clock_jumps=(0.0, 0.0, 0.0, 0.05, 0.2, 2.0)):
+    def __init__(self, choose, rng, max_steps=20000, clock_jumps=(0.0, 0.0, 0.0, 0.125, 0.25, 2.0)):
         self.rng = rng
         self.choose = choose
         self.threads = collections.OrderedDict()   # name -> CT
@@ -33,7 +33,7 @@ class Sched:
         self.steps = 0
         self.max_steps = max_steps
         self.wake_sched = _t.Semaphore(0)
-        self.now = 100.0
+        self.now = 1024.0          # virtual clock; all values are multiples of 1/8 s (exact in binary)
         self.clock_jumps = clock_jumps
         self.queues = []
         self.events = []
@@ -93,7 +93,11 @@ class Sched:
                 break
             self.steps += 1
             if self.steps > self.max_steps:
-                self.outcome = 'livelock' if self.idle_tail >= min(1500, self.max_steps // 2) else 'budget'
+                # livelock only if nothing but idle steps (timeouts, the janitor's polling) is possible:
+                # a thread with an enabled non-idle operation means the schedule was merely unfair
+                progress_possible = any(d == 'go' and not _is_idle(self, n) for n, d in cands)
+                self.outcome = ('livelock' if (not progress_possible and
+                                               self.idle_tail >= min(1500, self.max_steps // 2)) else 'budget')
                 self.stuck = [(c.name, c.pending[0] if c.pending else None) for c in live]
                 break
             cands.sort()
